@@ -167,9 +167,80 @@ pub fn run(tier: &str) -> i32 {
             rep.violation(k, d, json!({"kind":"window","family":fam,"n":n,"comp":cname(c),"writer":w.name()}));
         }
     }
+    // thorough: a second independent reading by tools/pyreader.py (Python standard library; none + gzip)
+    if thorough {
+        pyreader_crosscheck(&rep);
+    }
     rep.force_sample(json!({"kind":"window","family":1,"comp":"none","note":"n around the crossing point, see window_crossings"}));
     rep.force_sample(logical_to_json(&small_maps(3, Compression::GZip)[77]));
     rep.finish()
+}
+
+fn pyreader_crosscheck(rep: &Report) {
+    let dir = std::path::PathBuf::from("/verif/harness/target/pyreader-tmp");
+    let _ = std::fs::remove_dir_all(&dir);
+    if std::fs::create_dir_all(&dir).is_err() {
+        println!("MACHINERY: cannot create {dir:?}");
+        return;
+    }
+    let mut items: Vec<(Logical, Api)> = Vec::new();
+    for c in [Compression::None, Compression::GZip] {
+        for (i, l) in small_maps(5, c).into_iter().enumerate() {
+            if i % 29 == 0 {
+                items.push((l, if i % 2 == 0 { Api::Sync } else { Api::Async }));
+            }
+        }
+        let n = crossing(1, c, &window_logical_entries);
+        for d in [0usize, 7, 30] {
+            items.push((window_logical(1, n + d, c), Api::Sync));
+        }
+        items.push((scale_family(0, 1500, c), Api::Async));
+        items.push((scale_family(2, 300, c), Api::Sync));
+    }
+    let mut paths = Vec::new();
+    for (i, (l, api)) in items.iter().enumerate() {
+        match write_lib(l, *api) {
+            Ok(b) => {
+                let p = dir.join(format!("a{i}.pmtiles"));
+                if std::fs::write(&p, &b).is_ok() {
+                    paths.push((i, p));
+                }
+            }
+            Err(e) => rep.violation("write-failed/pyreader", e, json!({"kind":"pyreader","index":i})),
+        }
+    }
+    let out = std::process::Command::new("python3").arg("/verif/tools/pyreader.py").args(paths.iter().map(|p| p.1.clone())).output();
+    let Ok(out) = out else {
+        println!("MACHINERY: cannot run tools/pyreader.py");
+        return;
+    };
+    let text = String::from_utf8_lossy(&out.stdout);
+    let mut n = 0u64;
+    for (line, (i, _)) in text.lines().zip(paths.iter()) {
+        let Ok(v) = serde_json::from_str::<Value>(line) else { continue };
+        n += 1;
+        let l = &items[*i].0;
+        let case = json!({"kind":"pyreader","index":i,"archive": if l.tiles.len() < 10 { super::c01::logical_to_json(l) } else { json!(format!("{} tiles", l.tiles.len())) }});
+        if v["ok"].as_bool() != Some(true) {
+            rep.violation("pyreader/unreadable", format!("second independent reader fails: {}", v["error"]), case);
+            continue;
+        }
+        for c in v["complaints"].as_array().cloned().unwrap_or_default() {
+            rep.violation("pyreader/complaint", format!("second independent reader: {c}"), case.clone());
+        }
+        let got: std::collections::BTreeMap<u64, String> = v["tiles"].as_object().map(|m| m.iter().map(|(k, x)| (k.parse().unwrap_or(0), x.as_str().unwrap_or("").to_string())).collect()).unwrap_or_default();
+        let want: std::collections::BTreeMap<u64, String> = l.tiles.iter().map(|(k, x)| (*k, crate::report::hex(x))).collect();
+        if got != want {
+            rep.violation("pyreader/tiles", format!("second independent reader sees {} tiles, {} were added (or contents differ)", got.len(), want.len()), case.clone());
+        }
+        if v["meta"].as_object() != Some(&l.meta) {
+            rep.violation("pyreader/metadata", "second independent reader sees different metadata".to_string(), case);
+        }
+    }
+    rep.eval(n);
+    rep.nontrivial(n);
+    rep.count("archives_read_by_pyreader", n);
+    let _ = std::fs::remove_dir_all(&dir);
 }
 
 pub fn replay(case: &Value) -> Vec<String> {
